@@ -6,7 +6,7 @@ echo "== $id: demo with change:"; (cd $wt && PYTHONPATH=$wt timeout 600 /venv/bi
 echo "== $id: demo without change:"; (cd /tmp && PYTHONPATH=/repo timeout 600 /venv/bin/python $wt/SEED/demo.py > /tmp/seed_demo0_$id.log 2>&1; echo "exit=$?"; tail -1 /tmp/seed_demo0_$id.log | cut -c1-200)
 for c in ${@:-$id}; do
   echo "== $id: check $c against the change:"
-  COXETER_REPO=$wt /verif/check $c > /tmp/seed_check_${id}_$c.log 2>&1; echo "rc=$?"
+  PYVC_EVIDENCE_DIR=/tmp/seed_evidence/$id COXETER_REPO=$wt /verif/check $c > /tmp/seed_check_${id}_$c.log 2>&1; echo "rc=$?"
   grep -E "VIOLATION|CHECKER-ERROR|UNDECIDED" /tmp/seed_check_${id}_$c.log | cut -c1-260 | head -6
   tail -1 /tmp/seed_check_${id}_$c.log
 done
